@@ -155,6 +155,10 @@ func (e *Engine) registerCore() {
 		p.res.Reached = append(p.res.Reached, p.constStrArg(a[0], "vrt.Reach label"))
 		return nil
 	}
+	I["vrt.MustReach"] = func(p *Path, a []Value, site ssa.Instruction) Value {
+		p.res.Required = append(p.res.Required, p.constStrArg(a[0], "vrt.MustReach label"))
+		return nil
+	}
 	I["vrt.Enter"] = func(p *Path, a []Value, site ssa.Instruction) Value {
 		p.entered = true
 		return nil
